@@ -33,7 +33,7 @@ META = {
         "a positional-only parameter named like an available keyword is undecided",
         "a required parameter without any value may raise TypeError (not judged)",
     ],
-    "must_observe": ["decided_bind", "reserved_checked", "forwarded_checked", "pair_checked"],
+    "must_observe": ["decided_bind", "reserved_checked", "forwarded_checked", "pair_checked", "i2_contract_evaluations"],
     "shard_timeout": {"quick": 300, "thorough": 3400},
 }
 
@@ -552,10 +552,49 @@ def run_reexec(rng, counters, violations, sigs, rounds=40):
 
 def plan(tier, seed):
     n, per = (16, 120) if tier == "quick" else (64, 900)
-    return [{"seed": seed * 7919 + i * 31 + 5, "count": per} for i in range(n)]
+    return [{"seed": seed * 7919 + i * 31 + 5, "count": per} for i in range(n)] + [{"repo_suite": True}]
+
+
+def run_repo_suite():
+    """Auxiliary contract I2: the repository's own test-suite run with an icontract postcondition on
+    SignatureAdapter.bind_expected (vmon/i2plugin.py) - every dispatch the suite makes is compared with
+    the reference binder. Zero evaluations is inconclusive for the auxiliary, never green."""
+    import json
+    import os
+    import shutil
+    import subprocess
+    import tempfile
+
+    repo = os.environ.get("VERIF_REPO", "/repo")
+    root = os.path.dirname(os.path.dirname(os.path.abspath(__file__)))
+    out = tempfile.mktemp(suffix=".json", prefix="i2-")
+    env = dict(os.environ, VMON_I2_OUT=out, PYTHONPATH=os.pathsep.join([repo, root, os.path.join(root, ".deps")]))
+    tracked_before = subprocess.run(["git", "-C", repo, "status", "--porcelain"], capture_output=True, text=True).stdout
+    cp = subprocess.run(["/venv/bin/python", "-m", "pytest", "tests", "-q", "-p", "no:cacheprovider", "-p", "vmon.i2plugin",
+                         "--timeout=600", "-x"], cwd=repo, env=env, capture_output=True, text=True, timeout=900)
+    for junk in (".benchmarks", ".coverage"):
+        pth = os.path.join(repo, junk)
+        if junk not in tracked_before and os.path.exists(pth):
+            shutil.rmtree(pth, ignore_errors=True) if os.path.isdir(pth) else os.unlink(pth)
+    counters = {"i2_contract_evaluations": 0, "i2_contract_decided": 0}
+    violations = []
+    if os.path.exists(out):
+        stats = json.load(open(out))
+        os.unlink(out)
+        counters["i2_contract_evaluations"] = stats["evaluations"]
+        counters["i2_contract_decided"] = stats["decided"]
+        for v in stats["violations"][:3]:
+            violations.append({"mechanism": "contract-I2:binding-differs-during-repository-test-suite", "rule": "C07.binding",
+                               "detail": json.dumps(v)[:600], "witness": {"contract": "vmon/i2plugin.py", "case": v}})
+    res = {"evaluations": counters["i2_contract_decided"], "signatures": [], "samples": [], "counters": counters, "violations": violations}
+    if not counters["i2_contract_evaluations"]:
+        res["inconclusive"] = ["contract I2 was never evaluated (pytest: " + (cp.stdout[-200:] + cp.stderr[-200:]).replace("\n", " ") + ")"]
+    return res
 
 
 def run_shard(desc):
+    if desc.get("repo_suite"):
+        return run_repo_suite()
     rng = random.Random(desc["seed"])
     counters = {"pairs": 0, "decided_bind": 0, "undecided": 0, "may_raise": 0, "reserved_checked": 0,
                 "forwarded_checked": 0, "pair_checked": 0}
